@@ -392,3 +392,64 @@ func VerifC05_readUncommitted() {
 	verifAssert(next == base+int64(k), "next offset is one past the last batch")
 	verifReached("c05-read-uncommitted")
 }
+
+// The aborted-transaction list of a fetch response may list one producer's transactions in
+// ANY order (the filtering treats a[pid][0] as the smallest remaining aborted first offset and
+// pops it at each abort marker). buildAborter therefore has to hand the filter, per producer,
+// exactly the listed first offsets in ascending order — for every list, not only ascending or
+// descending ones. 0..4 entries over two producer ids, first offsets symbolic.
+func VerifC05_buildAborterOrdersEveryList() {
+	n := verifChoose(5)
+	rp := kmsg.NewFetchResponseTopicPartition()
+	var offs []int64
+	var pids []int64
+	for i := 0; i < n; i++ {
+		at := kmsg.NewFetchResponseTopicPartitionAbortedTransaction()
+		at.ProducerID = int64(7 + 2*verifChoose(2))
+		at.FirstOffset = verifNondetInt64("aborted.firstOffset")
+		verifAssume(verifAnd(at.FirstOffset >= 0, at.FirstOffset < 1<<40))
+		offs, pids = append(offs, at.FirstOffset), append(pids, at.ProducerID)
+		rp.AbortedTransactions = append(rp.AbortedTransactions, at)
+	}
+	a := buildAborter(&rp)
+	if n == 0 {
+		verifAssert(len(a) == 0, "no aborted transactions: nothing to filter")
+		verifReached("c05-build-aborter")
+		return
+	}
+	for _, pid := range []int64{7, 9} {
+		want := 0
+		for i := range pids {
+			if pids[i] == pid {
+				want++
+			}
+		}
+		got := a[pid]
+		verifAssert(len(got) == want, "every listed aborted transaction of a producer is kept")
+		if len(got) != want {
+			continue
+		}
+		asc := true
+		for i := 1; i < len(got); i++ {
+			asc = verifAnd(asc, got[i-1] <= got[i])
+		}
+		verifAssert(asc, "a producer's aborted first offsets are handed to the filter in ascending order, whatever order the broker listed them in")
+		// same multiset: every listed offset occurs as often in the result as in the list
+		for i := range pids {
+			if pids[i] != pid {
+				continue
+			}
+			inList, inGot := 0, 0
+			for j := range pids {
+				if pids[j] == pid {
+					inList = verifIteInt(offs[j] == offs[i], inList+1, inList)
+				}
+			}
+			for _, g := range got {
+				inGot = verifIteInt(g == offs[i], inGot+1, inGot)
+			}
+			verifAssert(inList == inGot, "the ordered offsets are exactly the listed ones")
+		}
+	}
+	verifReached("c05-build-aborter")
+}
